@@ -343,12 +343,12 @@ CHECKS = {
                        "with every root pipeline as top call.  Every result must compile.  Renames: the call-graph JSON must equal that of the program printed from the generator's IR after the same "
                        "rename, and X->Y->X must give the original call-graph JSON and be EquivalentCall both ways.  Removals: no new graph node, every remaining stage node resolves its remaining "
                        "inputs, disabling conditions and fork roots as before, preflights stay, the top-level call's resolved outputs are unchanged (remove-output: compile only). Exploration."),
-        "level_note": ("Single-file programs only (edits across include files are not generated).  Edits with no valid result are skipped and counted: removing the last output of a callable whose "
+        "level_note": ("A quarter of the cases spread the program over three files (main.mro including pipes.mro and sub/types.mro, a diamond) and apply the edit the way `mro edit` does for a set of files.  Edits with no valid result are skipped and counted: removing the last output of a callable whose "
                        "output struct is a parameter type.  Three classes are excluded as known findings (wildcard-bound inputs, output edits through struct values, map call losing its only split)."),
         "rule": "rapid program generator x edit kind x target; non-trivial: the edit changed >= 2 places of the file; distinct by hash(program text, edit, callable, parameter); classes: edit kind, multi-site.",
         "assumptions": ["the reference for renames is the generator's IR with the identifier replaced at its declaration, at every call/binding/reference and where the callable's name is used as a type"],
         "units": [U("props/lang", "TestC19Refactor", (3000, 10), (60000, 12))],
-        "floors": {"quick": {"edit:rename-callable": 3000, "edit:rename-input": 1000, "edit:rename-output": 500, "edit:remove-input": 1000, "edit:remove-output": 300, "edit:remove-unused": 2000, "multi-site": 5000}},
+        "floors": {"quick": {"edit:rename-callable": 3000, "edit:rename-input": 1000, "edit:rename-output": 500, "edit:remove-input": 1000, "edit:remove-output": 300, "edit:remove-unused": 2000, "multi-site": 5000, "multi-file": 3000}},
     },
     "C16": {
         "level": "exploration",
